@@ -352,6 +352,15 @@ fn main() {
                 structural(&mut w, &mut st, &g, x);
             }
         }
+        "dump" => {   // the generated rule sets only (debugging aid)
+            let count = arg_u64(2, 10); let mut rng = Rng::new(arg_u64(3, 0));
+            for k in 0..count {
+                let kind = (k % 8) as u32;
+                let g = if kind == 7 { let c = GenCfg { stack: rng.chance(1, 2), extras: x, counts: rng.chance(1, 2), builtins: rng.chance(1, 4) }; gen_grammar(&mut rng, &c) }
+                        else { let wild = rng.chance(1, 4); shaped(&mut rng, kind, x, wild) };
+                writeln!(w, "{}\t{}", k, sexp_grammar(&g)).unwrap();
+            }
+        }
         "sem" => {
             let count = arg_u64(2, 100); let mut rng = Rng::new(arg_u64(3, 0)); let maxlen = arg_u64(4, 5) as usize;
             for k in 0..count {
